@@ -498,9 +498,9 @@ impl<const LEVELS: usize> OrderBook<LEVELS> {
         }
         if order_entry.order.status != Status::Filled {
             let key: OrderKey = (Side::Bid, order_entry.key.1, self.t);
-            order_entry.key = key;
-            self.bid_side
-                .insert_order(key, order_entry.order.order_id, order_entry.order.vol)
+            order_entry.key =
+                self.bid_side
+                    .queue_order(key, order_entry.order.order_id, order_entry.order.vol)
         }
     }
 
@@ -541,9 +541,9 @@ impl<const LEVELS: usize> OrderBook<LEVELS> {
         }
         if order_entry.order.status != Status::Filled {
             let key: OrderKey = (Side::Ask, order_entry.key.1, self.t);
-            order_entry.key = key;
-            self.ask_side
-                .insert_order(key, order_entry.order.order_id, order_entry.order.vol)
+            order_entry.key =
+                self.ask_side
+                    .queue_order(key, order_entry.order.order_id, order_entry.order.vol)
         }
     }
 
@@ -700,9 +700,8 @@ impl<const LEVELS: usize> OrderBook<LEVELS> {
             match order_entry.key.0 {
                 crate::types::Side::Bid => {
                     let key: OrderKey = get_bid_key(self.t, new_price);
-                    order_entry.key = key;
 
-                    self.bid_side.insert_order(
+                    order_entry.key = self.bid_side.queue_order(
                         key,
                         order_entry.order.order_id,
                         order_entry.order.vol,
@@ -710,9 +709,8 @@ impl<const LEVELS: usize> OrderBook<LEVELS> {
                 }
                 crate::types::Side::Ask => {
                     let key: OrderKey = get_ask_key(self.t, new_price);
-                    order_entry.key = key;
 
-                    self.ask_side.insert_order(
+                    order_entry.key = self.ask_side.queue_order(
                         key,
                         order_entry.order.order_id,
                         order_entry.order.vol,
